@@ -38,6 +38,11 @@ def run(ctx):
     r = ctx.tlc("LookupPre", "LookupPre_forget.cfg", timeout=300, label="forget-on-close (expected: PreCreated violated)")
     if r.violated != "PreCreated":
         raise Inconclusive("LookupPre_forget.cfg is not refuted (got %s)" % r.violated)
+    # the peer list under run-time reconfiguration (two parallel lists pruned together; pruning only one is refuted)
+    ctx.model_check("LookupPeers", "LookupPeers_mc.cfg", timeout=300)
+    r = ctx.tlc("LookupPeers", "LookupPeers_peersonly.cfg", timeout=300, label="prune-peers-only (expected: PeersAreTheConfigured violated)")
+    if r.violated != "PeersAreTheConfigured":
+        raise Inconclusive("LookupPeers_peersonly.cfg is not refuted (got %s)" % r.violated)
     cases = []
     for i in range(2):
         cases.append({"kind": "reorder", "seed": i, "nlookupd": 1 + i % 2, "fails": []})
